@@ -168,7 +168,7 @@ class Family:
 
     def file_level(self, tf, pts, tier):
         r = random.Random(C.seed() + 55)
-        encs = [None, "utf-8", "utf-16", "latin-1"]
+        encs = [None, "utf-8", "utf-16", "latin-1", "utf-8-sig"]
         dials = [{}, {"delimiter": ";"}, {"delimiter": "\t"}, {"quoting": csv.QUOTE_ALL}, {"quotechar": "'"},
                  {"lineterminator": "\n"}]
         nfiles = 96 if tier == "quick" else 2880
@@ -177,7 +177,9 @@ class Family:
         stats = {"files": 0, "points": 0, "skipped_unencodable": 0}
         try:
             for i in range(nfiles):
-                enc, dial = encs[i % 4], dials[(i // 4) % 6]
+                enc, dial = encs[i % 5], dials[(i // 5) % 6]
+                tzctx = C.ProcessTZ(C.LOCAL_ZONES[i % 4] if i % 3 == 1 else None)     # the process's local zone
+                tzctx.__enter__()
                 sample = [pt for pt in r.sample(pts, 6) if signature(pt) is None]
                 if enc == "latin-1":
                     ok = []
@@ -232,6 +234,7 @@ class Family:
                             other.close()
                         except Exception:
                             pass
+                tzctx.__exit__()
                 exp = [V.show_point(self.mkpoint(tf, pt)) for pt in sample]
                 stats["files"] += 1
                 stats["points"] += len(sample)
